@@ -41,6 +41,35 @@ def loop (raw : Nat) : Nat → Bytes → Bytes → M (Option Bytes)
                 loop raw f r2.2 out
           | _ => pure (some out)
 
+/-- `loop` with the iteration budget made VISIBLE: the same loop, except that a budget used up while the Go loop condition
+still holds is a fault (`.budget`) instead of a silent return (see `Pglz.decompressB`) -/
+def loopB (raw : Nat) : Nat → Bytes → Bytes → M (Option Bytes)
+  | 0, data, out => if data = [] ∨ ¬ out.length < raw then pure (some out) else throw .budget
+  | f+1, data, out =>
+    if data = [] ∨ ¬ out.length < raw then pure (some out)
+    else match data with
+      | [] => pure (some out)
+      | token :: d1 =>
+        let lit0 := token.toNat >>> 4
+        let r := if lit0 = 15 then readExt d1 15 else (lit0, d1)
+        let d2 := r.2
+        let litLen := if r.1 > d2.length then d2.length else r.1
+        let out := out ++ d2.take litLen
+        let d3 := d2.drop litLen
+        if d3 = [] ∨ out.length ≥ raw then pure (some out)
+        else match d3 with
+          | o0 :: o1 :: d4 =>
+            let offset := o0.toNat ||| (o1.toNat <<< 8)
+            if offset = 0 then pure none
+            else
+              let ml0 := (token.toNat &&& 0x0F) + 4
+              let r2 := if ml0 = 19 then readExt d4 19 else (ml0, d4)
+              if offset > out.length then pure none
+              else do
+                let out ← copyLoopM (out.length - offset) offset raw r2.1 0 out
+                loopB raw f r2.2 out
+          | _ => pure (some out)
+
 /-! ### compiled code: the same loop over arrays (`@[csimp]`, proved equal) -/
 
 def loopA (raw : Nat) : Nat → Bytes → Array UInt8 → M (Option (Array UInt8))
